@@ -155,8 +155,9 @@ RULES = ["extrema", "auto", "mean", "otsu"]
 
 def check(ctx: vlib.Ctx) -> int:
     rng = random.Random(ctx.seed)
-    ok = vlib.prove(ctx, ["Proofs/C18.vo", "Proofs/Otsu.vo", "Model/OverlapCases.vo"], gens=["Gen_analysis"])
-    ctx.tie.append("translator (Gen_analysis regenerated from /repo) + correspondence of masks / thresholds / size filter inside Coq")
+    ok, fresh = vlib.prove_with_fallback(ctx, ["Proofs/C18.vo", "Proofs/Otsu.vo", "Model/OverlapCases.vo"], gens=["Gen_analysis"])
+    ctx.tie.append("correspondence of masks / thresholds / size filter inside Coq against the "
+                   + ("regenerated" if fresh else "golden") + " Gen_analysis")
     from droplets.image_analysis import locate_droplets, threshold_otsu
     nfields = ctx.scale(120, 1200)
     mask_cases, otsu_cases, rs_cases, meta, fails = [], [], [], [], []
